@@ -139,6 +139,11 @@ def _set_with_op(container: Any, key: Any, op: str, value: Any) -> Any:
     key = _key_cast(container, key)
     value = copy.deepcopy(value)
 
+    try:
+        container[key]
+    except LookupError:
+        raise ParserError(f'Key error \'{key}\'')
+
     if op == '+=':
         container[key] += value
     elif op == '-=':
